@@ -187,11 +187,16 @@ func consume(r io.Reader, mode, buf, maxIter int) (got []byte, err error, stuck 
 	default:
 		var bb bytes.Buffer
 		var e error
+		var n int64
 		if buf%2 == 0 {
 			// a destination without ReadFrom: the copy goes through WriteTo's own buffer
-			_, e = io.Copy(plainWriter{&bb}, r)
+			n, e = io.Copy(plainWriter{&bb}, r)
 		} else {
-			_, e = io.Copy(&bb, r)
+			n, e = io.Copy(&bb, r)
+		}
+		if n != int64(bb.Len()) {
+			// the count io.Copy / WriteTo reports is the number of bytes the writer received
+			return bb.Bytes(), fmt.Errorf("io.Copy reported %d bytes, the writer received %d (copy ended with: %v)", n, bb.Len(), e), false
 		}
 		if e == nil {
 			e = io.EOF
